@@ -82,9 +82,15 @@ def body(run, sym, sc):
                 run.cex.append(dict(scenario=scn, obligation=name))
     # (d) dispersion-mode re-centring
     if ny % 2 == 0 and nx % 2 == 0:
-        for (i, j) in [(1 % nx, 0), (0, 1 % ny), (nx - 1, ny - 1), (nx // 2, ny // 2)]:
-            if (i, j) == (0, 0):
-                continue
+        # every class of (coordinate is 0 / on the domain mid-line / elsewhere) x (same for y), except the origin
+        ci = [0, nx // 2] + ([1 if nx // 2 != 1 else nx - 1] if nx > 2 else [])
+        cj = [0, ny // 2] + ([ny - 1 if ny // 2 != ny - 1 else 1] if ny > 2 else [])
+        pts = []
+        for i in ci:
+            for j in cj:
+                if (i, j) != (0, 0) and (i, j) not in pts:
+                    pts.append((i, j))
+        for (i, j) in pts:
             g, c2, f2 = kindl.sym_solve(sym, sc0, q, srf_bg_conc=bg, meas_pt=(i * dx, j * dy))
             c2, f2 = kindl.lv3(c2, sc), kindl.lv3(f2, sc)
             sh = (ny // 2 - j, nx // 2 - i)
